@@ -752,7 +752,113 @@ def ev_sched(case, rec):
                 'distinct_outcomes': len(out['outcomes'])})
 
 
+# ------------------------------------------------------------------------------------------------
+# long histories: N distinct argument tuples through one function, then all of them again in reverse order.  Every second
+# evaluation must reproduce the first bit for bit, and the first N are anchored by the same calls in a pristine interpreter
+# on a sparse subset.  A bounded result store (LRU, "last 1024 results"), a table that grows until it is cleared, a
+# counter-driven code path or a key that collides somewhere in a large argument set shows here and in no short history.
+def _soak_args(kind, n):
+    out = []
+    for i in range(n):
+        a = -80.0 + 160.0 * ((i * 0.6180339887498949) % 1.0)
+        b = -179.0 + 358.0 * ((i * 0.7548776662466927) % 1.0)
+        j = i % 7
+        if kind == 'geo':
+            out.append((round(a, 6), round(b, 6)))
+        elif kind == 'geoint':
+            out.append((int(a), int(b)))
+        elif kind == 'grid':
+            out.append((1 + i % 60, round(200000.0 + 600000.0 * ((i * 0.569840290998) % 1.0), 3), round(1.0e6 + 8.0e6 * ((i * 0.3819660112501051) % 1.0), 3)))
+        elif kind == 'xyz':
+            out.append((round(6.4e6 * math.cos(math.radians(a)) * math.cos(math.radians(b)), 3), round(6.4e6 * math.cos(math.radians(a)) * math.sin(math.radians(b)), 3),
+                        round(6.4e6 * math.sin(math.radians(a)), 3)))
+        elif kind == 'line':
+            out.append((round(a, 6), round(b, 6), round(a * 0.5 + j, 6), round(b * 0.5 + 3 * j, 6)))
+        elif kind == 'dirn':
+            out.append((round(a, 6), round(b, 6), round((i * 137.50776405) % 360.0, 6), round(10.0 ** (1 + 6 * ((i * 0.2360679775) % 1.0)), 3)))
+        elif kind == 'angle':
+            out.append((round(-720.0 + 1440.0 * ((i * 0.6180339887498949) % 1.0), 9),))
+        elif kind == 'atm':
+            out.append((0.4 + 0.2 * (i % 7), round(-20.0 + 65.0 * ((i * 0.6180339887498949) % 1.0), 3), round(650.0 + 450.0 * ((i * 0.7548776662466927) % 1.0), 2),
+                        round(30.0 * ((i * 0.569840290998) % 1.0), 3), 300 + 50 * (i % 5)))
+    return out
+
+
+SOAK = {
+    'geo2grid': ('geo', lambda a: gv.geo2grid(*a)),
+    'geo2grid_int': ('geoint', lambda a: gv.geo2grid(*a)),
+    'geo2grid_ans_isgless': ('geo', lambda a: gv.geo2grid(a[0], a[1], 0, gc.ans)),
+    'grid2geo': ('grid', lambda a: gv.grid2geo(a[0], a[1], a[2])),
+    'grid2geo_north_intl': ('grid', lambda a: gv.grid2geo(a[0], a[1], a[2], 'north', gc.intl24)),
+    'llh2xyz': ('geo', lambda a: gv.llh2xyz(a[0], a[1], 100.0 * a[0])),
+    'xyz2llh': ('xyz', lambda a: gv.xyz2llh(*a)),
+    'vincinv': ('line', lambda a: gg.vincinv(*a)),
+    'vincdir': ('dirn', lambda a: gg.vincdir(*a)),
+    'rotation_matrix': ('geo', lambda a: gs.rotation_matrix(*a)),
+    'rotation_matrix_int': ('geoint', lambda a: gs.rotation_matrix(*a)),
+    'dec2hp': ('angle', lambda a: ga.dec2hp(a[0])),
+    'dec2dms': ('angle', lambda a: ga.dec2dms(a[0])),
+    'hp_roundtrip': ('angle', lambda a: ga.hp2dec(ga.dec2hp(a[0]))),
+    'conform7': ('xyz', lambda a: gt.conform7(a[0], a[1], a[2], gc.gda94_to_gda2020, A(V33))),
+    'conform14': ('xyz', lambda a: gt.conform14(a[0], a[1], a[2], datetime.date(1990 + int(abs(a[0])) % 60, 1 + int(abs(a[1])) % 12, 1 + int(abs(a[2])) % 28),
+                                               gc.itrf2014_to_gda2020, A(V33))),
+    'add_date': ('xyz', lambda a: (lambda t: [t.tx, t.ty, t.tz, t.sc, t.rx, t.ry, t.rz, str(t.ref_epoch)])(
+        gc.itrf2008_to_gda94 + datetime.date(1990 + int(abs(a[0])) % 60, 1 + int(abs(a[1])) % 12, 1 + int(abs(a[2])) % 28))),
+    'group_refractivity': ('atm', lambda a: gsv.group_refractivity(*a)),
+    'phase_refractivity': ('atm', lambda a: gsv.phase_refractivity(*a)),
+    'llh_coord': ('geo', lambda a: (lambda c: (c.tm(), c.cart()))(gco.CoordGeo(a[0], a[1], 10.0, None))),
+}
+
+
+def gen_soak(tier, seed):
+    n = 6000 if tier == 'thorough' else 1500
+    for name in sorted(SOAK):
+        yield {'soak': name, 'n': n}
+
+
+def ev_soak(case, rec):
+    kind, fn = SOAK[case['soak']]
+    args = _soak_args(kind, case['n'])
+
+    def one(a):
+        try:
+            return ('ok', snp.canon(fn(a)))
+        except Exception as e:
+            return ('raise', type(e).__name__)
+
+    def work():
+        first = [one(a) for a in args]
+        second = [one(a) for a in reversed(args)][::-1]
+        third = [one(a) for a in args[:64]]
+        bad = [i for i in range(len(args)) if first[i] != second[i]] + [i for i in range(64) if first[i] != third[i]]
+        return bad[:5], len(bad), [first[i] for i in range(0, len(args), 97)], len({f for f in first})
+
+    def anchor():
+        return [one(args[i]) for i in range(0, len(args), 97)]
+    bad, nbad, sparse, distinct = in_child(work)
+    ref = in_child(anchor)
+    rec.transitions += 2 * len(args) + 64
+    rec.nontriv((case['soak'], case['n']))
+    rec.state(('soak', case['soak'], distinct))
+    if distinct < len(args) // 3:
+        raise HarnessError('soak %s: only %d distinct results from %d argument tuples (vacuous)' % (case['soak'], distinct, len(args)))
+    if nbad:
+        rec.fail('after %d other calls the same call no longer returns what it returned the first time (%d of %d argument tuples)'
+                 % (len(args), nbad, len(args)), site='purity:long-history:' + case['soak'], observed=[list(args[i]) for i in bad], case=case,
+                 coords={'function': case['soak'], 'n': case['n']})
+        rec.outcome('soak-bad')
+    elif sparse != ref:
+        k = [i for i, (x, y) in enumerate(zip(sparse, ref)) if x != y]
+        rec.fail('a call inside a long history returns something else than in a pristine interpreter', site='purity:long-history:' + case['soak'],
+                 observed=[list(args[97 * i]) for i in k[:5]], case=case, coords={'function': case['soak'], 'n': case['n']})
+        rec.outcome('soak-bad')
+    else:
+        rec.outcome('soak-ok')
+    rec.sample({'function': case['soak'], 'calls': 2 * len(args) + 64, 'distinct_results': distinct})
+
+
 SUBCHECKS = [
+    Sub('soak', gen_soak, ev_soak, chunk=1, floor=10, timeout=1800, poison=False),
     Sub('seq', gen_seq, ev_seq, chunk=1, floor=40, timeout=3600, poison=False),
     Sub('sched', gen_sched, ev_sched, chunk=1, floor=100, timeout=3600, poison=False),
 ]
